@@ -14,6 +14,9 @@ import (
 type Solver struct {
 	cmd       *exec.Cmd
 	in        io.WriteCloser
+	bw        *bufio.Writer
+	lines     chan readResult
+	dead      bool
 	out       *bufio.Reader
 	bin       string
 	timeoutMs int
@@ -22,6 +25,7 @@ type Solver struct {
 	Unsat     int
 	Unknown   int
 	Errors    int
+	Restarts  int
 	Time      time.Duration
 	log       io.Writer
 	depth     int
@@ -54,8 +58,23 @@ func (s *Solver) start() error {
 		return err
 	}
 	s.in = in
+	s.bw = bufio.NewWriterSize(in, 1<<16)
 	s.out = bufio.NewReaderSize(out, 1<<16)
 	s.depth = 0
+	s.dead = false
+	lines := make(chan readResult, 64)
+	s.lines = lines
+	rd := s.out
+	go func() {
+		for {
+			l, err := rd.ReadString('\n')
+			lines <- readResult{l, err}
+			if err != nil {
+				close(lines)
+				return
+			}
+		}
+	}()
 	if strings.Contains(s.bin, "cvc5") {
 		s.Send("(set-logic ALL)")
 	} else {
@@ -67,6 +86,7 @@ func (s *Solver) start() error {
 
 func (s *Solver) Close() {
 	if s.cmd != nil {
+		s.bw.Flush()
 		s.in.Close()
 		done := make(chan struct{})
 		go func() { s.cmd.Wait(); close(done) }()
@@ -83,8 +103,8 @@ func (s *Solver) Send(line string) {
 	if s.log != nil {
 		fmt.Fprintln(s.log, line)
 	}
-	io.WriteString(s.in, line)
-	io.WriteString(s.in, "\n")
+	s.bw.WriteString(line)
+	s.bw.WriteByte('\n')
 }
 
 func (s *Solver) Push() { s.Send("(push)"); s.depth++ }
@@ -97,6 +117,7 @@ func (s *Solver) restart() {
 		s.cmd.Wait()
 	}
 	s.start()
+	s.Restarts++
 }
 
 type readResult struct {
@@ -106,15 +127,36 @@ type readResult struct {
 
 // readLine reads one response line with a hard wall timeout (solver timeout + slack).
 func (s *Solver) readLine() (string, error) {
-	ch := make(chan readResult, 1)
-	go func() {
-		l, err := s.out.ReadString('\n')
-		ch <- readResult{l, err}
-	}()
+	if s.dead {
+		return "", fmt.Errorf("solver dead")
+	}
+	s.bw.Flush()
 	select {
-	case r := <-ch:
+	case r, ok := <-s.lines:
+		if !ok {
+			s.dead = true
+			return "", fmt.Errorf("solver exited")
+		}
+		if r.err != nil {
+			s.dead = true
+		}
 		return strings.TrimSpace(r.line), r.err
-	case <-time.After(time.Duration(s.timeoutMs)*time.Millisecond*2 + 10*time.Second):
+	default:
+	}
+	tm := time.NewTimer(time.Duration(s.timeoutMs)*time.Millisecond*2 + 10*time.Second)
+	defer tm.Stop()
+	select {
+	case r, ok := <-s.lines:
+		if !ok {
+			s.dead = true
+			return "", fmt.Errorf("solver exited")
+		}
+		if r.err != nil {
+			s.dead = true
+		}
+		return strings.TrimSpace(r.line), r.err
+	case <-tm.C:
+		s.dead = true
 		return "", fmt.Errorf("solver wall timeout")
 	}
 }
@@ -122,6 +164,9 @@ func (s *Solver) readLine() (string, error) {
 // Check runs (check-sat) with the extra assertion `extra` ("" for none) in a temporary scope.
 // Returns "sat", "unsat", "unknown" (also for errors/timeouts).
 func (s *Solver) Check(extra string, keep bool) string {
+	if s.dead {
+		return "dead"
+	}
 	t0 := time.Now()
 	s.Queries++
 	if !keep {
@@ -151,11 +196,16 @@ func (s *Solver) Check(extra string, keep bool) string {
 			break
 		}
 		if strings.HasPrefix(l, "(error") {
+			// any error (rejected definition, cancelled push, ...) leaves the session in an unknown
+			// scope: nothing it says afterwards is believed; the caller restarts the solver
 			s.Errors++
-			fmt.Fprintln(os.Stderr, "SOLVER ERROR:", l)
-			res = "error"
-			// keep reading until the check-sat answer arrives
-			continue
+			if s.Errors < 5 {
+				fmt.Fprintln(os.Stderr, "SOLVER ERROR:", l)
+			}
+			s.dead = true
+			s.Time += time.Since(t0)
+			s.Unknown++
+			return "dead"
 		}
 	}
 	if !keep {
